@@ -518,13 +518,29 @@ func lineFirstHandExplore(rest Line) Line {
 
 func c14Configs(tier string) []*handCfg {
 	var out []*handCfg
-	for _, hc := range c10Configs(tier) {
+	for i, hc := range c10Configs(tier) {
 		c := *hc
 		c.sitOut = false
 		c.hands = 2
 		c.line = lineFirstHandExplore(lineCheckDown)
 		c.pol = HandPolicy{Finish: "all"}
 		out = append(out, &c)
+		// the same with a seated player who is not dealt in and holds player-list index 0, so that the
+		// hand's indexes differ from the player list's
+		if i%3 == 0 {
+			d := c
+			d.sitOut, d.sitOutFirst = true, true
+			d.name = hc.name + "/sitting-out-first"
+			out = append(out, &d)
+		}
+	}
+	// deep stacks: room for an open raise, a 3-bet and a 4-bet (the 3-bet flag has to move)
+	for _, first := range []bool{false, true} {
+		tc := defaultCfg(5)
+		tc.Blind = blindStd()
+		hc := &handCfg{name: fmt.Sprintf("deep-headsup/sitting-out-first=%v", first), tcfg: tc, ids: []string{"a", "b"}, seatOf: []int{0, 2}, stacks: []int64{14, 13},
+			sitOut: first, sitOutFirst: first, hands: 2, line: lineFirstHandExplore(lineCheckDown), pol: HandPolicy{Finish: "all"}}
+		out = append(out, hc)
 	}
 	return out
 }
